@@ -505,3 +505,43 @@ package commitlog
 //@   ensures [starts-at-last-entry-at-or-below] forall i int64 :: 0 <= i && i < entryCount(segment.Index) ==> ((i <= result.ris.offset) <==> (entryOffAt(segment.Index, i) <= startOffset))
 //@ func newReverseSegmentScanner$1 serves C08, C10, C11
 //@   ensures result == (i < 0 || i >= entryCount(segment.Index) || entryOffAt(segment.Index, i) > startOffset)
+
+// ---------------------------------------------------------------------------------------------
+// Segment lookup and the committed reader (properties C03, C01, C10)
+//
+// findSegment: the first segment whose next offset is above the argument (binary search; the segment list is
+// ordered by next offset - assumed at entry, it is the log's representation invariant)
+//@ func findSegment$1 serves C03, C01, C10
+//@   assumes 0 <= i && i < len(segments) && segments[i] != nil
+//@   ensures result == (nextOf(segments[i]) > offset)
+//@ func findSegment serves C03, C01, C10
+//@   returns (seg, idx)
+//@   assumes forall i int :: 0 <= i && i < len(segments) ==> segments[i] != nil
+//@   assumes forall i int, j int :: 0 <= i && i < j && j < len(segments) ==> nextOf(segments[i]) <= nextOf(segments[j])
+//@   modifies nothing
+//@   ensures [index] 0 <= idx && idx <= len(segments) && (seg == nil <==> idx == len(segments)) && (idx < len(segments) ==> seg == segments[idx])
+//@   ensures [first-above] idx < len(segments) ==> nextOf(segments[idx]) > offset
+//@   ensures [none-before] forall i int :: 0 <= i && i < idx ==> nextOf(segments[i]) <= offset
+
+// committedReader.Read, reader parked beyond the watermark: after the watermark moved, reading resumes at the
+// message after the OLD watermark - in the segment that holds it, at that message's entry - so nothing that
+// became committed is skipped; the reader's watermark only moves forward.
+//@ func (*committedReader).Read serves C03
+//@   requires r != nil && r.cl != nil
+//@   call (*segment).findEntry requires [resumes-after-old-hw] arg1 == old(r.hw) + 1
+//@   call (*segment).findEntry requires [in-the-segment-holding-it] forall k int :: 0 <= k && k < len(segments) && nextOf(segments[k]) > old(r.hw) + 1 && (forall i int :: 0 <= i && i < k ==> nextOf(segments[i]) <= old(r.hw) + 1) ==> arg0 == segments[k]
+//@   call getHWPos requires [limit-at-current-hw] arg1 == r.hw
+//@ func (*segment).ReadAt serves C03
+//@   returns (n, err)
+//@   requires s != nil
+//@   ensures 0 <= n && n <= len(p)
+// readLoop: in the watermark's segment a read never extends beyond the watermark's byte position
+//@ func min serves C03
+//@   modifies nothing
+//@   ensures result == (x < y ? x : y)
+//@ func (*committedReader).readLoop serves C03
+//@   requires r != nil && r.cl != nil && r.seg != nil
+//@   loop 1 invariant n >= 0 && r.seg != nil
+//@   call (*segment).ReadAt requires [from-reader-position] arg0 == r.seg && arg2 == r.pos
+//@   call (*segment).ReadAt requires [not-beyond-hw-position] r.seg == r.hwSeg ==> r.pos + len(arg1) <= r.hwPos
+//@   call getHWPos requires [limit-at-current-hw] arg1 == r.hw
